@@ -393,7 +393,7 @@ class Instance:
         params, results = self.ftypes[idx]
         if len(args) != len(params):
             raise TypeError("%s expects %d arguments, got %d" % (name, len(params), len(args)))
-        self.depth = 0
+        self.depth = self.steps = 0         # depth and step budget are per invocation
         out = self._call(idx, [self._in(t, v) for t, v in zip(params, args)])
         return [self._out(t, v) for t, v in zip(results, out)]
 
